@@ -277,6 +277,9 @@ impl Engine for StoreEngine {
     fn run(&self, case: &Value, plan: &SchedPlan) -> Outcome {
         let sc: StoreCase = serde_json::from_value(case["store"].clone()).expect("store case");
         let mut out = Outcome::default();
+        if case["systematic"].as_bool().unwrap_or(false) {
+            out.stats.probe("small_scope_enumerated_histories", 1);
+        }
         let mut plan = plan.clone();
         plan.calm = case["calm"].as_bool().unwrap_or(false);
         if self.prop != "C11" {
@@ -370,9 +373,9 @@ impl Engine for StoreEngine {
 
     fn rule(&self) -> String {
         match self.prop {
-            "C09" => "one evaluation = one generated operation history (1..60 ops quick, ..200 thorough; ids from an alphabet of 4/6/12, classes 0..2, 1..5 shards) executed on the real TrackStore under one seeded schedule and compared op by op with the sequential map model (return value + full contents + shard placement after every op; un-awaited merges handled as a candidate set of linearisations). distinct = distinct interleaving hash of (task, event kind, source line) in global order; non-trivial = at least two operations executed and at least one context switch between caller and workers".into(),
-            "C10" => "one evaluation = one generated history of store mutations and distance queries (foreign and owned, 1..4 candidates, both only_baked, drained by all()/iterator/partially/not at all) on the real TrackStore under one seeded schedule; each drained query is compared as a multiset (and its error-stream count) with the sequential reference. distinct = distinct interleaving hash; non-trivial = >=2 ops executed and >=1 context switch".into(),
-            _ => "one evaluation = one generated history plus one re-execution per callback-invocation position of a target operation (store level), each under its own seeded schedule; distinct = distinct interleaving hash; non-trivial = >=2 ops and >=1 context switch".into(),
+            "C09" => "one evaluation = one generated operation history (1..60 ops quick, ..200 thorough; ids from an alphabet of 4/6/12, classes 0..2, 1..5 shards) executed on the real TrackStore under one seeded schedule and compared op by op with the sequential map model (return value + full contents + shard placement after every op; un-awaited merges handled as a candidate set of linearisations). distinct = distinct interleaving hash of (task, event kind, source line) in global order; non-trivial = at least two operations executed and at least one context switch between caller and workers. The batch ends (quick) / starts (thorough) with the small-scope sub-batch: every history of <=2 / <=3 operations over the fixed 71-operation alphabet of storesim/systematic.rs on 1, 2, 3 shards, each under its own seeded schedule (probe small_scope_enumerated_histories)".into(),
+            "C10" => "one evaluation = one generated history of store mutations and distance queries (foreign and owned, 1..4 candidates, both only_baked, drained by all()/iterator/partially/not at all) on the real TrackStore under one seeded schedule; each drained query is compared as a multiset (and its error-stream count) with the sequential reference. distinct = distinct interleaving hash; non-trivial = >=2 ops executed and >=1 context switch. Plus the small-scope sub-batch of storesim/systematic.rs (every history of <=2 quick / <=3 thorough operations over 71 fixed operations, 1..3 shards)".into(),
+            _ => "one evaluation = one generated history plus one re-execution per callback-invocation position of a target operation (store level), each under its own seeded schedule; distinct = distinct interleaving hash; non-trivial = >=2 ops and >=1 context switch. Plus the small-scope sub-batch (every history of 1 quick / <=2 thorough operations over the 71 fixed operations of storesim/systematic.rs, each with its fault positions)".into(),
         }
     }
 
